@@ -120,7 +120,7 @@ theorem r2_solution_satisfies_odes (o : Ops K) (i : In K) (hadd : ∀ x y, o.D (
 /-- closed forms (statement of the property, checked against the generated definitions) -/
 theorem G2_closed_form (o : Ops K) (i : In K) :
     G2 o i = -o.mu0 * i.p2 * i.G0 / (i.B0 * i.B0) - i.iota * i.I2 := by
-  simp only [G2]
+  simp only [G2, qsc_local] <;> ring_congr
 
 theorem beta_1s_closed_form (o : Ops K) (i : In K) (hB0 : i.B0 ≠ 0) (hG0 : o.abs i.G0 ≠ 0) :
     beta_1s o i = -4 * i.spsi * i.sG * o.mu0 * i.p2 * i.etabar * (o.abs i.G0) / (i.iotaN * i.B0 ^ 3) := by
